@@ -85,12 +85,42 @@ func (c *fnCtx) enterLoop(b *ssa.BasicBlock, preds []*ssa.BasicBlock, conds []st
 				eqs = append(eqs, e)
 			}
 		}
+		if li.mods.Top {
+			// everything was havocked (new heap epoch): tie the keys that were in use before the loop to their
+			// entry values, so that a first-iteration model is a run from the function entry
+			for k, old := range li.entrySt.m {
+				if k == "$wm" || strings.HasPrefix(k, "ghost:") {
+					continue
+				}
+				if t, ok := c.st.m[k]; ok {
+					if t != old {
+						eqs = append(eqs, "(= "+t+" "+old+")")
+					}
+					continue
+				}
+				name := fmt.Sprintf("H%d_%s", c.st.epoch, smtKey(k))
+				if !c.em.declared[name] {
+					c.em.declared[name] = true
+					c.em.decl(name, c.em.keySort(k))
+				}
+				eqs = append(eqs, "(= "+name+" "+old+")")
+			}
+		}
 		if !li.mods.Top {
 			for k, t := range c.st.m {
 				if k == "$wm" {
 					continue
 				}
-				if old, ok := li.entrySt.m[k]; ok && old != t {
+				old, ok := li.entrySt.m[k]
+				if !ok {
+					// key first touched by the havoc: its value on entry is the epoch default
+					old = fmt.Sprintf("H%d_%s", li.entrySt.epoch, smtKey(k))
+					if !c.em.declared[old] {
+						c.em.declared[old] = true
+						c.em.decl(old, c.em.keySort(k))
+					}
+				}
+				if old != t {
 					eqs = append(eqs, "(= "+t+" "+old+")")
 				}
 			}
